@@ -87,6 +87,10 @@ class Builder:
             }
         if "stderr" in allow and rng.random() < 0.6:
             e["stderr"] = {"mode": rng.choice(["eio", "closed", "epipe", "enospc", "none"]), "at": rng.randint(1, 5)}
+            if rng.random() < 0.5:
+                # slow steps: tqdm's (simulated) redraw timer elapses at every step
+                e["stderr"]["step_dt"] = rng.choice([0.06, 0.25, 0.25, 5.0])
+                e["stderr"]["at"] = rng.randint(1, 8)
         if "interrupt" in allow and rng.random() < 0.5:
             e["interrupt"] = {"exc": rng.choice(["KeyboardInterrupt", "MemoryError"]), "frac": round(rng.uniform(0.02, 0.98), 3)}
             if rng.random() < 0.12:
